@@ -128,7 +128,7 @@ def run(ctx):
     ctx.add_tlc('Units', res, exhaustive=True)
     g = Graph(res.records['EDGE'], res.records.get('INIT'))
     ctx.sample({'edge': [e for e in res.records['EDGE'] if e['l']['act'] == 'Call'][3]})
-    sets = [(1.5, 2.48), (1.0, 1.0)] + ([(0.34, 0.996), (25.0, 40.0), (3.7e-3, 1e3)] if thorough else [])
+    sets = [(1.5, 2.48), (1.0, 1.0)] + ([(0.34, 0.996), (25.0, 40.0), (3.7e-3, 1e3), (7.0, 0.01), (1.0, 300.0), (123.4, 5.6), (0.5, 0.5)] if thorough else [])
     for dc, ec in sets:
         w = Walker(ctx, g, UnitsAdapter(dc, ec, ctx.seed), 'replay.Units.dc%g.ec%g' % (dc, ec))
         ne = w.cover_edges()
